@@ -281,6 +281,12 @@ class Tdf:
 
     @property
     @provide_context_if_needed
+    def has_force_platforms_data(self) -> bool:
+        """Check if the file has a force platforms data block."""
+        return any(entry.type == BlockType.forcePlatformsData for entry in self.entries)
+
+    @property
+    @provide_context_if_needed
     def has_force_and_torque(self) -> bool:
         """Check if the file has a force and torque data block."""
         return any(entry.type == BlockType.forceAndTorqueData for entry in self.entries)
